@@ -138,7 +138,7 @@ def answerParse (toks : List String) : String :=
           let all := ["_list_outputs_only", "_list_inputs_only", "_generate"].map fun m =>
             (callsOf calls m a ns).map fun (cs : List Call) => cs.map (showCall m)
           match all.mapM id with
-          | some ls => showList ls.flatten
+          | some ls => if ls.flatten.isEmpty then "@" else showList ls.flatten
           | none => "!"
       s!"ok ns={nsS} mode={modeS} pps={ppS} calls={callS}"
 
